@@ -117,17 +117,22 @@ def arg_order(ctx, modules=None):
                                             isinstance(call.func, ast.Attribute)) else tgt.params
             if not params:
                 continue
-            names = [a.id if isinstance(a, ast.Name) else
-                     (a.attr if isinstance(a, ast.Attribute) else None) for a in call.args]
-            both = [(i, nm) for i, nm in enumerate(names) if nm in params]
+            from ..model import positional_layout
+            lay = positional_layout(repo, f.module, f.local_names(), call)
+            both = []
+            for (pos, a), k_ in zip(lay, range(len(lay))):
+                nm = a.id if isinstance(a, ast.Name) else (
+                    a.attr if isinstance(a, ast.Attribute) else None)
+                if nm in params and pos is not None:
+                    both.append((pos, nm, a))
             if len(both) < 2:
                 continue
             n += 1
-            for i, nm in both:
+            for i, nm, anode in both:
                 j = params.index(nm)
                 ok = i == j or i >= len(params)
                 ctx.ob('ARG-ORDER', ok, None, '%s: `%s` at the position of parameter %s'
-                       % (f.qualname, nm, nm), f=f, node=call.args[i],
+                       % (f.qualname, nm, nm), f=f, node=anode,
                        key='%s->%s:%s' % (f.qualname, norm_text(call.func), nm),
                        why='%s calls `%s` with `%s` at the position of the parameter `%s`, while '
                            'the callee has a parameter named `%s` at position %d: arguments '
